@@ -19,6 +19,11 @@ import (
 	"google.golang.org/protobuf/reflect/protoreflect"
 )
 
+// exported scalar helpers for callers that render values themselves
+func Int(v int64) string    { return "n" + hexI(v) }
+func Uint(v uint64) string  { return "n" + strconv.FormatUint(v, 16) }
+func Bytes(b []byte) string { return "b" + hexB(b) }
+
 func hexI(v int64) string {
 	if v < 0 {
 		return "-" + strconv.FormatUint(uint64(-(v+1))+1, 16)
@@ -59,13 +64,29 @@ func scalar(fd protoreflect.FieldDescriptor, v protoreflect.Value) string {
 	return "?"
 }
 
+// ExtraFields, when set, supplies for every message rendered (at any depth) the fields its reflective view
+// cannot see (gogo keeps proto2 extensions outside what protobuf-go's legacy wrapper reads).
+var ExtraFields func(m protoreflect.Message) map[int]string
+
 // Message renders m.
 func Message(m protoreflect.Message) string {
+	if ExtraFields != nil {
+		return MessageExtra(m, ExtraFields(m))
+	}
+	return MessageExtra(m, nil)
+}
+
+// MessageExtra renders m plus fields the reflective view cannot see (gogo extensions), given as
+// number -> rendered value.
+func MessageExtra(m protoreflect.Message, extra map[int]string) string {
 	type kv struct {
 		num int
 		s   string
 	}
 	var fs []kv
+	for n, v := range extra {
+		fs = append(fs, kv{n, strconv.Itoa(n) + "=" + v})
+	}
 	m.Range(func(fd protoreflect.FieldDescriptor, v protoreflect.Value) bool {
 		var s string
 		switch {
